@@ -572,3 +572,221 @@ def gen_c14(rng):
         hist.append(dict(op='single', h=0, out=11, field=f, copy=False))
         hist.append(chk(11, ['values', 'cov', 'valid']))
     return hist
+
+
+# ------------------------------------------------------------------ C02: every mutator, queries in between
+CHK_ACC = ['values', 'cov', 'valid', 'nvalid', 'covmap', 'fracdet', 'covpix', 'submaps']
+
+
+def gen_c02(rng):
+    kind = rng.choice(['plain', 'plain', 'wide', 'rec', 'packed', 'bool'])
+    if kind == 'bool':
+        cfg = rng.choice(CFGS_PACKED)
+        mk = mk_plain(rng, 0, cfg, 'b')
+    else:
+        mk = pick_map(rng, kinds=(kind,), h=0)
+    cfg = (mk['nc'], mk['ns'])
+    hist = [mk, chk(0, CHK_ACC)]
+    isbool = (mk['kind'] == 'packed') or (mk['kind'] == 'plain' and mk.get('dtype') == 'b')
+    # a second boolean map for map-with-map operators
+    if isbool:
+        mk2 = dict(mk)
+        mk2['h'] = 1
+        mk2['cov_pixels'] = None
+        hist.append(mk2)
+        hist += fill_steps(rng, mk2, 1, 1, forms=('pix',))
+    # a mask map for apply_mask
+    mm = mk_plain(rng, 50, cfg, 'u2', sentinel=0)
+    hist.append(mm)
+    hist += fill_steps(rng, mm, 50, 1, forms=('pix',), none_ok=False)
+    for _ in range(rng.randint(2, 7)):
+        r = rng.random()
+        # the cached count is always populated before the mutation
+        hist.append(chk(0, ['nvalid']))
+        if r < 0.3:
+            hist.append(rand_update(rng, mk, h=0))
+        elif r < 0.5:
+            ops = legal_ops(mk)
+            op = rng.choice(ops)
+            st = dict(op='rng', h=0, operation=op, thr=rng.choice([0, 0, None]))
+            st['ranges'] = rand_ranges(rng, cfg, overlapping=True)
+            if mk['kind'] == 'rec':
+                st['value'] = None
+                st['operation'] = 'replace'
+            elif op == 'replace' and rng.random() < 0.3:
+                st['value'] = None
+            else:
+                v = rand_value(rng, mk)
+                if mk['kind'] == 'plain' and mk['dtype'] in INT_DT and op == 'add':
+                    v = max(0 if INT_RANGE[mk['dtype']][0] == 0 else -3, min(3, v))
+                st['value'] = v
+            hist.append(st)
+        elif r < 0.62 and isbool:
+            q = rng.random()
+            if q < 0.4:
+                hist.append(dict(op='bconst', h=0, out=0, fn='invert', inplace=True))
+            elif q < 0.6:
+                hist.append(dict(op='bconst', h=0, out=0, fn=rng.choice(['and', 'or', 'xor']), const=rng.random() < 0.5,
+                                 inplace=True))
+            else:
+                hist.append(dict(op='bmap', h=0, out=0, fn=rng.choice(['and', 'or', 'xor']), h2=1, inplace=True))
+        elif r < 0.62 and mk['kind'] == 'plain' and mk['dtype'] != 'b':
+            if mk['dtype'] in FLT_DT:
+                hist.append(dict(op='sop', h=0, out=0, inplace=True, fn=rng.choice(['+', '*']), scalar=rng.choice([1.0, 2.0])))
+            else:
+                hist.append(dict(op='sop', h=0, out=0, inplace=True, fn='+', scalar=rng.choice([0, 1])))
+        elif r < 0.62 and mk['kind'] == 'wide':
+            width = (mk['maxbits'] - 1) // 8 + 1
+            hist.append(dict(op='bits', h=0, which=rng.choice(['set', 'clear']),
+                             pixels=rand_pixels(rng, mk, unique=False, nmax=6), bits=[rng.randrange(8 * width)]))
+        elif r < 0.62 and mk['kind'] == 'rec':
+            names = [n for n, _ in mk['fields']]
+            hist.append(dict(op='vwrite_valid', h=0, field=rng.choice(names), n=2, seed=rng.randrange(10 ** 6)))
+        elif r < 0.8 and mk['kind'] != 'packed':
+            hist.append(dict(op='amask', h=0, out=0, hm=50, inplace=True, mode=rng.choice(['none', 'bits']),
+                             bits=rng.choice([1, 2, 3, 4])))
+        else:
+            hist.append(rand_update(rng, mk, h=0, forms=('pix', 'setitem_arr')))
+        hist.append(chk(0, CHK_ACC))
+    return hist
+
+
+# ------------------------------------------------------------------ C09: two-phase histories
+def gen_c09(rng):
+    """derive a map with a producer, then mutate / grow either side and re-observe the other"""
+    prod = rng.choice(['copy', 'sop', 'astype', 'aspacked', 'degrade', 'degrade_same', 'degrade_w', 'upgrade', 'amask',
+                       'single', 'covpixmap', 'mop', 'bmap', 'bconst', 'invert', 'wr', 'covpixmap_unc'])
+    cfgs = [(1, 4), (2, 4), (2, 8), (1, 8), (4, 8)]
+    cfg = rng.choice(cfgs)
+    hist = []
+    srcs = [0]
+    if prod in ('bmap', 'bconst', 'invert', 'aspacked'):
+        cfg = rng.choice(CFGS_PACKED)
+        packed = rng.random() < 0.5 and prod != 'aspacked'
+        mk = dict(op='mk', h=0, kind='packed' if packed else 'plain', nc=cfg[0], ns=cfg[1], sentinel=None, cov_pixels=None)
+        if not packed:
+            mk['dtype'] = 'b'
+    elif prod == 'single':
+        mk = pick_map(rng, kinds=('rec',), h=0)
+        mk['nc'], mk['ns'] = cfg
+        mk['cov_pixels'] = None
+    elif prod in ('degrade_w',):
+        mk = mk_plain(rng, 0, cfg, rng.choice(FLT_DT), sentinel=None)
+    elif prod in ('mop', 'astype', 'sop', 'amask', 'degrade', 'upgrade', 'degrade_same'):
+        mk = mk_plain(rng, 0, cfg, rng.choice(['f8', 'f4', 'i4', 'i8', 'u2']), sentinel=rng.choice([None, 0]))
+        if mk['dtype'] in FLT_DT and mk['sentinel'] == 0:
+            mk['sentinel'] = 0.0
+    else:
+        mk = pick_map(rng, kinds=('plain', 'wide', 'rec', 'packed'), h=0)
+        if mk['kind'] != 'packed':
+            mk['nc'], mk['ns'] = cfg
+            mk['cov_pixels'] = None
+    cfg = (mk['nc'], mk['ns'])
+    hist.append(mk)
+    hist.append(dict(op='setmeta', h=0, metadata={'AKEY': 5, 'LONGERKEYNAME': 'x'}))
+    # leave at least one coverage pixel uncovered so that growth is possible
+    ncov = ncov_of(cfg)
+    nfine = nfine_of(cfg)
+    covs = rng.sample(range(ncov), max(1, min(ncov - 2, rng.randint(1, 3))))
+    pix = []
+    for _ in range(rng.randint(2, 10)):
+        p = rng.choice(covs) * nfine + rng.randrange(nfine)
+        if p not in pix:
+            pix.append(p)
+    vals = [rand_value(rng, mk, allow_sentinel=False) for _ in pix]
+    if mk['kind'] == 'wide':
+        vals = [v or 1 for v in vals]
+    hist.append(dict(op='upd', h=0, form='pix', operation='replace', expect='ok', pixels=pix, values=vals, single=False))
+    out = 5
+    if prod == 'copy':
+        hist.append(dict(op='copy', h=0, out=out))
+    elif prod == 'sop':
+        hist.append(dict(op='sop', h=0, out=out, inplace=False, fn='+', scalar=1.0 if mk['dtype'] in FLT_DT else 1))
+    elif prod == 'astype':
+        hist.append(dict(op='astype', h=0, out=out, dtype='f8', sentinel=None))
+    elif prod == 'aspacked':
+        hist.append(dict(op='aspacked', h=0, out=out))
+    elif prod in ('degrade', 'degrade_same', 'degrade_w'):
+        nside_out = cfg[1] if prod == 'degrade_same' else rng.choice([n for n in (1, 2, 4, 8) if n < cfg[1]])
+        hw = None
+        red = rng.choice(['mean', 'sum', 'max'])
+        if prod == 'degrade_w':
+            wmk = mk_plain(rng, 1, cfg, 'f8', sentinel=None)
+            hist.append(wmk)
+            hist.append(dict(op='upd', h=1, form='pix', operation='replace', expect='ok', pixels=pix,
+                             values=[rng.choice([0.5, 1.0, 2.0]) for _ in pix], single=False))
+            hw = 1
+            red = 'wmean'
+            srcs.append(1)
+        hist.append(dict(op='degrade', h=0, out=out, nside_out=nside_out, reduction=red, hw=hw))
+    elif prod == 'upgrade':
+        hist.append(dict(op='upgrade', h=0, out=out, nside_out=cfg[1] * 2))
+    elif prod == 'amask':
+        mm = mk_plain(rng, 1, cfg, 'u2', sentinel=0)
+        hist.append(mm)
+        hist.append(dict(op='upd', h=1, form='pix', operation='replace', expect='ok', pixels=pix[:max(1, len(pix) // 2)],
+                         values=[rng.choice([1, 2, 3]) for _ in pix[:max(1, len(pix) // 2)]], single=False))
+        srcs.append(1)
+        hist.append(dict(op='amask', h=0, out=out, hm=1, inplace=False, mode='none'))
+    elif prod == 'single':
+        names = [n for n, _ in mk['fields']]
+        hist.append(dict(op='single', h=0, out=out, field=rng.choice(names), copy=True))
+    elif prod in ('covpixmap', 'covpixmap_unc'):
+        hist.append(dict(op='covpixmap', h=0, out=out, which=rng.randrange(4), uncovered=(prod == 'covpixmap_unc')))
+    elif prod == 'mop':
+        mk2 = dict(mk)
+        mk2['h'] = 1
+        hist.append(mk2)
+        pix2 = [p for p in pix if rng.random() < 0.6] or pix[:1]
+        hist.append(dict(op='upd', h=1, form='pix', operation='replace', expect='ok', pixels=pix2,
+                         values=[rand_value(rng, mk, allow_sentinel=False) for _ in pix2], single=False))
+        srcs.append(1)
+        hist.append(dict(op='mop', out=out, name=rng.choice(['sum_union', 'sum_intersection', 'max_union']), hs=[0, 1]))
+    elif prod in ('bmap',):
+        mk2 = dict(mk)
+        mk2['h'] = 1
+        if rng.random() < 0.5:
+            mk2['kind'] = 'packed' if mk['kind'] == 'plain' else 'plain'
+            if mk2['kind'] == 'plain':
+                mk2['dtype'] = 'b'
+            else:
+                mk2.pop('dtype', None)
+        hist.append(mk2)
+        pix2 = [rng.randrange(npix_of(cfg)) for _ in range(4)]
+        hist.append(dict(op='upd', h=1, form='pix', operation='replace', expect='ok', pixels=sorted(set(pix2)),
+                         values=True, single=True))
+        srcs.append(1)
+        hist.append(dict(op='bmap', h=0, out=out, fn=rng.choice(['and', 'or', 'xor']), h2=1, inplace=False))
+    elif prod == 'bconst':
+        hist.append(dict(op='bconst', h=0, out=out, fn=rng.choice(['and', 'or', 'xor']), const=True, inplace=False))
+    elif prod == 'invert':
+        hist.append(dict(op='bconst', h=0, out=out, fn='invert', inplace=False))
+    elif prod == 'wr':
+        hist.append(dict(op='wr', h=0, out=out, compress=rng.random() < 0.5, pixels=None))
+    # phase 0: every argument is unchanged by the call itself
+    for s in srcs:
+        hist.append(chk(s, ['values', 'cov', 'valid', 'nvalid', 'raw']))
+    hist.append(chk(out, ['values', 'cov', 'valid', 'nvalid', 'raw', 'layout']))
+    order = rng.random() < 0.5
+    for phase in (0, 1):
+        if (phase == 0) == order:
+            # mutate / grow the result: sources unchanged
+            for s in srcs:
+                hist.append(dict(op='snapshot', h=s, name='s%d' % s))
+            hist.append(dict(op='metamut', h=out, others=srcs))
+            hist.append(dict(op='grow', h=out, which=rng.randrange(5), off=rng.randrange(16), alt=rng.randrange(40)))
+            hist.append(chk(out, ['values', 'cov', 'valid', 'nvalid', 'raw', 'layout']))
+            for s in srcs:
+                hist.append(dict(op='unchanged', h=s, name='s%d' % s,
+                                 what='modifying the result of an operation disturbed one of its arguments'))
+                hist.append(chk(s, ['values', 'cov', 'valid', 'nvalid', 'raw', 'layout']))
+        else:
+            # mutate / grow the sources: result unchanged
+            hist.append(dict(op='snapshot', h=out, name='r'))
+            for s in srcs:
+                hist.append(dict(op='grow', h=s, which=rng.randrange(5), off=rng.randrange(16), alt=rng.randrange(40)))
+                hist.append(chk(s, ['values', 'cov', 'valid', 'nvalid', 'raw', 'layout']))
+            hist.append(dict(op='unchanged', h=out, name='r',
+                             what='modifying an argument after the call disturbed the result'))
+            hist.append(chk(out, ['values', 'cov', 'valid', 'nvalid', 'raw', 'layout']))
+    return hist
